@@ -13,6 +13,10 @@ HARNESS = os.path.join(VERIF, "harness", "unitpos")
 WORK = os.path.join(CACHE, "lines")
 
 LF, CR, A, E2, ZH, EMO = "\n", "\r", "a", "é", "中", "\U0001F600"
+# characters at the edges of the UTF-8 byte classes (0x7F, first / last continuation byte 0x80 / 0xBF in every
+# position, first and last code point of every encoded length) and the line-break look-alikes that are NOT line breaks
+EDGE = ["\x7f", "\u0080", "\u00bf", "\u00ff", "\u07ff", "\u0800", "\ufeff", "\uffff", "\U00010000", "\U0010ffff",
+        "\u0085", "\u2028", "\x0b", "\x0c", "\t"]
 
 
 class CountSet:
